@@ -238,6 +238,11 @@ def run(ctx: Ctx, tier: str) -> Result:
         else:
             res.fail(Finding("C14.D", shutdown.qname, "<%s>" % what, shutdown.loc(), "shutdown no longer performs: " + what))
 
+    # ---------------- DRAIN: shutdown drains delivery even when deliveries fail (same rules as C09.C)
+    from .c09 import flush_rules
+    res.rule("C14.DRAIN", "draining waits for every pending task, per task, and never re-raises a task outcome")
+    flush_rules(ctx, res, "C14.DRAIN")
+
     # ---------------- E
     lps = p.func("deep.poll.poll.LongPoll.shutdown")
     stops = [c for c in t.calls_in(lps) if any(f.qname == "deep.utils.RepeatedTimer.stop" for f in t.resolve_call(c, lps).repo)]
